@@ -1539,6 +1539,20 @@ def _ones(shape, dtype=None, **kw):
     return r
 
 
+def _full(shape, fill_value, dtype=None, **kw):
+    if isinstance(shape, (int, Sym)):
+        shape = [shape]
+    for s in shape:
+        if not bool(S(s) >= 0):
+            raise SValueError("negative dimensions are not allowed")
+    v = LF.of(fill_value)
+    if v.terms:
+        raise Unsupported("np.full with an input-dependent fill value")
+    r = SArr(tuple(shape), lambda k: v, as_dtype(dtype) if dtype is not None else (CDT if not v.const.is_real() else FDT))
+    r.struct = ("const", v)
+    return r
+
+
 def _argsort(a):
     xs = [int(x) for x in a]
     return sorted(range(len(xs)), key=lambda i: xs[i])
@@ -1896,6 +1910,7 @@ class _Numpy(_NS):
     linalg = _Linalg()
     zeros = staticmethod(_zeros)
     ones = staticmethod(_ones)
+    full = staticmethod(_full)
     empty = staticmethod(_np_empty)
     isscalar = staticmethod(_isscalar)
     prod = staticmethod(_np_prod)
